@@ -122,6 +122,11 @@ def run(R):
             hs.append({"id": R.next_id(), "cls": "mac", "mac": "poly1305", "key": rnd("twice%d" % j),
                        "ev": [{"op": "new"}, {"op": "input", "x": 1, "data": msgstream[:n]}, {"op": first, "x": 1}, {"op": second, "x": 1}]})
             R.count(("twice", n, first, second))
+    # the tag written into a caller's buffer longer than the tag (legal for Poly1305: the first 16 bytes are written), and into one that is too short
+    for j, n in enumerate([17, 20, 32, 64, 15]):
+        hs.append({"id": R.next_id(), "cls": "mac", "mac": "poly1305", "key": rnd("rawlen%d" % j),
+                   "ev": [{"op": "new"}, {"op": "input", "x": 1, "data": msgstream[:21 + j]}, {"op": "raw_result", "x": 1, "n": n}]})
+        R.count(("raw_result-buffer", n))
     # clones: taken mid-message (with bytes staged) both copies continue independently; taken after the tag was read the copy returns the same tag
     for j, (n1, n2) in enumerate([(5, 20), (16, 7), (33, 0), (0, 17)]):
         k = rnd("clone%d" % j)
